@@ -26,29 +26,33 @@ const MODEL_FIXED: &str = "true";
 fn header() -> String {
     format!(
         r#"From ZV.Common Require Import Base Run.
-From ZV.C18 Require Import Model.
+From ZV.C18 Require Import Model ModelCases.
 Open Scope N_scope.
 Definition case_t : Type := N * N * N * list Z * list Z.
 Definition ok (c : case_t) : bool :=
-  let '(kind, a, b, ops, expect) := c in eqb_lz (run_case {} kind a b ops) expect.
+  let '(kind, a, b, ops, expect) := c in eqb_lz (run_case2 {} kind a b ops) expect.
 "#,
         MODEL_FIXED
     )
 }
 
+/// number of Coq case kinds (see coq/C18/ModelCases.v)
+const NK: usize = 20;
+
 struct Ctx {
     sum: Summary,
     shards: CoqShards,
-    /// Coq evaluation budget per case kind (queue, submit, map, reduce, collector)
-    budget: [usize; 8],
-    used: [usize; 8],
+    /// Coq evaluation budget per case kind (queue, submit, map, reduce, collector, ...)
+    budget: [usize; NK],
+    used: [usize; NK],
     rng: Rng,
     thorough: bool,
 }
 
 impl Ctx {
     fn coq(&mut self, kind: u32, a: u64, b: u64, ops: &[i64], obs: &[i64], case: &Value, force: bool) {
-        let k = (kind as usize).min(7);
+        // kinds 9 and 11 are the runs of kinds 2 and 3 compared with both models: same budget
+        let k = match kind { 9 => 2, 11 => 3, k => (k as usize).min(NK - 1) };
         if !force && self.used[k] >= self.budget[k] { return; }
         self.used[k] += 1;
         let term = format!(
@@ -600,6 +604,32 @@ fn rand_items(r: &mut Rng, n: usize, fail: u64) -> Vec<i64> {
     v
 }
 
+type Log = Arc<std::sync::Mutex<Vec<usize>>>;
+fn new_log() -> Log { Arc::new(std::sync::Mutex::new(Vec::new())) }
+fn pool_cfg(max_fibers: usize, max_workers: usize) -> FiberPoolConfig {
+    FiberPoolConfig { max_fibers, initial_workers: 1, max_workers, queue_capacity: 16, idle_timeout: Duration::from_secs(1) }
+}
+/// total_spawned, active_fibers, completed, failed, and the number of free permits as far as the public API
+/// shows it: `shutdown()` returns once all `max_fibers` permits are free (-1: it did not within 2 s)
+async fn pool_stats(pool: &FiberPool, max_fibers: usize) -> Vec<i64> {
+    let st = pool.stats();
+    let free = match tokio::time::timeout(Duration::from_secs(2), pool.shutdown()).await { Ok(Ok(())) => max_fibers as i64, _ => -1 };
+    vec![st.total_spawned as i64, st.active_fibers as i64, st.completed as i64, st.failed as i64, free]
+}
+/// parallel_map / parallel_for_each return at the first error while later fibers are still owed their one
+/// execution: wait (bounded) until `n` bodies have started, then let them finish
+async fn wait_bodies(log: &Log, n: usize) {
+    let t0 = Instant::now();
+    while log.lock().unwrap().len() < n && t0.elapsed() < Duration::from_secs(3) { tokio::time::sleep(Duration::from_micros(300)).await; }
+    for _ in 0..8 { tokio::task::yield_now().await; }
+    tokio::time::sleep(Duration::from_millis(1)).await;
+}
+fn visit_problem(log: &[usize], n: usize) -> Option<String> {
+    let mut seen = vec![0u32; n];
+    for &i in log { if i < n { seen[i] += 1; } else { return Some(format!("a body ran for the unknown item {}", i)); } }
+    if seen.iter().any(|&c| c != 1) { Some(format!("visit counts {:?} (every item must be processed exactly once)", seen)) } else { None }
+}
+
 /// which: 0 FiberPool::parallel_map, 1 concurrency::parallel_map, 2 join_all over spawn, 3 FiberPool::spawn_batch + await
 fn pmap_case(cx: &mut Ctx, which: u64, rt: usize, max_fibers: usize, xs: &[i64], panics: bool, force: bool) {
     let cell = ["FiberPool::parallel_map", "concurrency::parallel_map", "concurrency::join_all", "FiberPool::spawn_batch"][which as usize];
@@ -607,13 +637,22 @@ fn pmap_case(cx: &mut Ctx, which: u64, rt: usize, max_fibers: usize, xs: &[i64],
     cx.sum.eval(cell, &format!("pm {} {} {} {} {:?}", which, rt, max_fibers, panics, xs), xs.len() >= 2);
     cx.sum.dist(&format!("pmap_len_vs_fibers={}", if xs.len() < max_fibers { "below" } else if xs.len() == max_fibers { "equal" } else { "above" }));
     let xv = xs.to_vec();
+    let log = new_log();
+    let stats: Arc<std::sync::Mutex<Vec<i64>>> = Arc::new(std::sync::Mutex::new(vec![]));
+    let (lg, stc) = (log.clone(), stats.clone());
     let r = guarded(|| with_rt(rt, async move {
         tokio::time::timeout(hang_for(max_fibers), async move {
             let f = move |x: i64| if panics { stage_p(x) } else { stage(x) };
             match which {
                 0 => {
-                    let pool = FiberPool::new(FiberPoolConfig { max_fibers, initial_workers: 1, max_workers: 2, queue_capacity: 16, idle_timeout: Duration::from_secs(1) })?;
-                    pool.parallel_map(xv, f).await
+                    let pool = FiberPool::new(pool_cfg(max_fibers, 2))?;
+                    let n = xv.len();
+                    let items: Vec<(usize, i64)> = xv.into_iter().enumerate().collect();
+                    let l2 = lg.clone();
+                    let res = pool.parallel_map(items, move |(i, x): (usize, i64)| { l2.lock().unwrap().push(i); f(x) }).await;
+                    wait_bodies(&lg, n).await;
+                    *stc.lock().unwrap() = pool_stats(&pool, max_fibers).await;
+                    res
                 }
                 1 => zipora::concurrency::parallel_map(xv, f).await,
                 2 => {
@@ -621,7 +660,7 @@ fn pmap_case(cx: &mut Ctx, which: u64, rt: usize, max_fibers: usize, xs: &[i64],
                     zipora::concurrency::join_all(hs).await
                 }
                 _ => {
-                    let pool = FiberPool::new(FiberPoolConfig { max_fibers, initial_workers: 1, max_workers: 2, queue_capacity: 16, idle_timeout: Duration::from_secs(1) })?;
+                    let pool = FiberPool::new(pool_cfg(max_fibers, 2))?;
                     let hs = pool.spawn_batch(xv.into_iter().map(|x| async move { f(x) }));
                     let mut out = vec![];
                     let mut err = None;
@@ -638,27 +677,44 @@ fn pmap_case(cx: &mut Ctx, which: u64, rt: usize, max_fibers: usize, xs: &[i64],
         Ok(Err(_)) => cx.sum.fail(cell, None, case, "did not return (8 s; 0.7 s when the limit is 0)"),
         Ok(Ok(res)) => {
             let got = res.ok();
-            if !panics && !(max_fibers == 0 && (which == 0 || which == 3)) { cx.coq(2, 0, 0, xs, &obs_opt(&got), &case, force); }
+            let order: Vec<usize> = log.lock().unwrap().clone();
+            let st: Vec<i64> = stats.lock().unwrap().clone();
+            if which == 0 && rt == 0 && max_fibers > 0 && st.len() == 5 {
+                // current-thread runtime: the order in which the bodies run and the statistics are deterministic too;
+                // compared with the FiberPool state machine (and, without panics, with the result-collection model as before)
+                let mut obs: Vec<i64> = vec![];
+                if !panics { obs.extend(obs_opt(&got)); obs.push(-8); }
+                obs.extend(obs_opt(&got));
+                obs.push(-7);
+                obs.extend(order.iter().map(|&i| i as i64));
+                obs.push(-7);
+                obs.extend_from_slice(&st);
+                let mut cj = case.clone();
+                cj["kind"] = json!(9);
+                cx.coq(9, max_fibers as u64, if panics { 1 } else { 0 }, xs, &obs, &cj, force);
+            } else if !panics && !(max_fibers == 0 && (which == 0 || which == 3)) { cx.coq(2, 0, 0, xs, &obs_opt(&got), &case, force); }
             if got != want {
                 cx.sum.fail(cell, None, case, &format!("returned {:?}, applying the function in input order gives {:?}", got, want));
+            } else if which == 0 && max_fibers > 0 {
+                if let Some(p) = visit_problem(&order, xs.len()) { cx.sum.fail(cell, None, case, &p); }
             }
         }
     }
 }
 
-fn foreach_case(cx: &mut Ctx, rt: usize, max_fibers: usize, xs: &[i64]) {
+fn foreach_case(cx: &mut Ctx, rt: usize, max_fibers: usize, xs: &[i64], force: bool) {
     let cell = "FiberPool::parallel_for_each";
-    let case = json!({"cell": "foreach", "kind": 11, "rt": rt, "max_fibers": max_fibers, "ops": xs});
+    let case = json!({"cell": "foreach", "kind": 10, "rt": rt, "max_fibers": max_fibers, "ops": xs});
     cx.sum.eval(cell, &format!("fe {} {} {:?}", rt, max_fibers, xs), xs.len() >= 2);
-    cx.sum.cell_status(cell, "S-only");
     let n = xs.len();
-    let visits: Arc<Vec<AtomicU32>> = Arc::new((0..n + 1).map(|_| AtomicU32::new(0)).collect());
+    let log = new_log();
     let items: Vec<(usize, i64)> = xs.iter().cloned().enumerate().collect();
-    let v2 = visits.clone();
+    let lg = log.clone();
     let r = guarded(|| with_rt(rt, async move {
         tokio::time::timeout(hang_for(max_fibers), async move {
-            let pool = FiberPool::new(FiberPoolConfig { max_fibers, initial_workers: 1, max_workers: 2, queue_capacity: 16, idle_timeout: Duration::from_secs(1) })?;
-            let res = pool.parallel_for_each(items, move |(i, x): (usize, i64)| { v2[i].fetch_add(1, Ordering::SeqCst); stage(x).map(|_| ()) }).await;
+            let pool = FiberPool::new(pool_cfg(max_fibers, 2))?;
+            let l2 = lg.clone();
+            let res = pool.parallel_for_each(items, move |(i, x): (usize, i64)| { l2.lock().unwrap().push(i); stage(x).map(|_| ()) }).await;
             // parallel_for_each returns at the first error; the other fibers are still owed their one execution
             let t0 = Instant::now();
             loop {
@@ -666,9 +722,7 @@ fn foreach_case(cx: &mut Ctx, rt: usize, max_fibers: usize, xs: &[i64]) {
                 if st.completed + st.failed >= st.total_spawned || t0.elapsed() > Duration::from_secs(3) { break; }
                 tokio::time::sleep(Duration::from_micros(300)).await;
             }
-            let _ = tokio::time::timeout(Duration::from_secs(3), pool.shutdown()).await;
-            let st = pool.stats();
-            Ok::<_, ZiporaError>((res.is_ok(), st.total_spawned, st.completed + st.failed, st.active_fibers))
+            Ok::<_, ZiporaError>((res.is_ok(), pool_stats(&pool, max_fibers).await))
         }).await
     }));
     let want_ok = seq_map(xs, false).is_some();
@@ -676,13 +730,101 @@ fn foreach_case(cx: &mut Ctx, rt: usize, max_fibers: usize, xs: &[i64]) {
         Err(p) => cx.sum.fail(cell, None, case, &format!("panicked: {}", p)),
         Ok(Err(_)) => cx.sum.fail(cell, None, case, "did not return (8 s; 0.7 s when the limit is 0)"),
         Ok(Ok(Err(e))) => cx.sum.fail(cell, None, case, &format!("pool error {:?}", e)),
-        Ok(Ok(Ok((ok, spawned, finished, active)))) => {
-            let v: Vec<u32> = (0..n).map(|i| visits[i].load(Ordering::SeqCst)).collect();
-            if ok != want_ok { cx.sum.fail(cell, None, case, &format!("returned ok={} but sequential application gives ok={}", ok, want_ok)); }
-            else if v.iter().any(|&c| c != 1) { cx.sum.fail(cell, None, case, &format!("visit counts {:?} (every item must be visited exactly once)", v)); }
-            else if spawned != n as u64 || finished != n as u64 || active != 0 {
-                cx.sum.fail(cell, None, case, &format!("3 s after the call: spawned {} finished {} active {} for {} items", spawned, finished, active, n));
+        Ok(Ok(Ok((ok, st)))) => {
+            let order: Vec<usize> = log.lock().unwrap().clone();
+            if rt == 0 {
+                let mut obs: Vec<i64> = vec![if ok { 1 } else { 0 }, -7];
+                obs.extend(order.iter().map(|&i| i as i64));
+                obs.push(-7);
+                obs.extend_from_slice(&st);
+                cx.coq(10, max_fibers as u64, 0, xs, &obs, &case, force);
             }
+            let (spawned, active, finished, free) = (st[0], st[1], st[2] + st[3], st[4]);
+            if ok != want_ok { cx.sum.fail(cell, None, case, &format!("returned ok={} but sequential application gives ok={}", ok, want_ok)); }
+            else if let Some(p) = visit_problem(&order, n) { cx.sum.fail(cell, None, case, &p); }
+            else if spawned != n as i64 || finished != n as i64 || active != 0 || free < 0 {
+                cx.sum.fail(cell, None, case, &format!("3 s after the call: spawned {} finished {} active {} (shutdown() returned: {}) for {} items", spawned, finished, active, free >= 0, n));
+            }
+        }
+    }
+}
+
+/// A FiberPool history (M+S): `codes[i]` is what the body of fiber i does once its gate opens (0 = Ok(100+i),
+/// 1 = Err, 2 = panic); all fibers are spawned with `spawn_batch` on a current-thread runtime, then the harness
+/// opens the gates in the order `gates` (missing ones are appended) and lets the runtime settle after each.
+/// Observed after the spawn and after every gate: active_fibers, completed, failed, which handles are finished;
+/// at the end what every handle yields, the order in which the bodies ran, the statistics.
+fn pool_hist_case(cx: &mut Ctx, max_fibers: usize, codes: &[i64], gates_in: &[i64], force: bool) {
+    let cell = "FiberPool::spawn (semaphore history)";
+    let n = codes.len();
+    let mut gates: Vec<i64> = gates_in.iter().cloned().filter(|&g| g >= 0 && (g as usize) < n).collect();
+    for i in 0..n { if !gates.contains(&(i as i64)) { gates.push(i as i64); } }
+    let case = json!({"cell": "poolhist", "kind": 8, "max_fibers": max_fibers, "ops": codes, "gates": gates});
+    cx.sum.eval(cell, &format!("ph {} {:?} {:?}", max_fibers, codes, gates), n >= 2);
+    cx.sum.dist(&format!("poolhist_fibers_vs_permits={}", if n < max_fibers { "below" } else if n == max_fibers { "equal" } else { "above" }));
+    let cv = codes.to_vec();
+    let gv = gates.clone();
+    let log = new_log();
+    let lg = log.clone();
+    let r = guarded(|| with_rt(0, async move {
+        tokio::time::timeout(HANG, async move {
+            let pool = FiberPool::new(pool_cfg(max_fibers, 2))?;
+            let mut txs: Vec<Option<tokio::sync::oneshot::Sender<()>>> = vec![];
+            let mut futs = vec![];
+            for (i, &c) in cv.iter().enumerate() {
+                let (tx, rx) = tokio::sync::oneshot::channel::<()>();
+                txs.push(Some(tx));
+                let l2 = lg.clone();
+                futs.push(async move {
+                    let _ = rx.await;
+                    l2.lock().unwrap().push(i);
+                    match c { 0 => Ok(100 + i as i64), 1 => Err(ZiporaError::invalid_data("body failed")), _ => panic!("body panicked") }
+                });
+            }
+            let hs = pool.spawn_batch(futs);
+            let rounds = 3 * n + 8;
+            let look = |pool: &FiberPool, hs: &Vec<zipora::concurrency::FiberHandle<i64>>| -> Vec<i64> {
+                let st = pool.stats();
+                let mut bits = 0i64;
+                for (i, h) in hs.iter().enumerate() { if h.is_finished() { bits |= 1 << i; } }
+                vec![st.active_fibers as i64, st.completed as i64, st.failed as i64, bits]
+            };
+            let mut obs: Vec<i64> = vec![];
+            for _ in 0..rounds { tokio::task::yield_now().await; }
+            obs.extend(look(&pool, &hs));
+            for &g in &gv {
+                if let Some(tx) = txs[g as usize].take() { let _ = tx.send(()); }
+                for _ in 0..rounds { tokio::task::yield_now().await; }
+                obs.extend(look(&pool, &hs));
+            }
+            obs.push(-7);
+            let mut results: Vec<i64> = vec![];
+            for h in hs {
+                if h.is_finished() { results.push(match h.await { Ok(v) => v, Err(_) => -1 }); } else { results.push(-9); }
+            }
+            obs.extend_from_slice(&results);
+            obs.push(-7);
+            let order: Vec<usize> = lg.lock().unwrap().clone();
+            obs.extend(order.iter().map(|&i| i as i64));
+            obs.push(-7);
+            let st = pool_stats(&pool, max_fibers).await;
+            obs.extend_from_slice(&st);
+            Ok::<_, ZiporaError>((obs, results, order, st))
+        }).await
+    }));
+    match r {
+        Err(p) => cx.sum.fail(cell, None, case, &format!("panicked: {}", p)),
+        Ok(Err(_)) => cx.sum.fail(cell, None, case, "did not return (8 s)"),
+        Ok(Ok(Err(e))) => cx.sum.fail(cell, None, case, &format!("pool error {:?}", e)),
+        Ok(Ok(Ok((obs, results, order, st)))) => {
+            let mut ops: Vec<i64> = codes.to_vec();
+            ops.extend_from_slice(&gates);
+            cx.coq(8, max_fibers as u64, n as u64, &ops, &obs, &case, force);
+            // the property: every spawned fiber ran exactly once and its handle yields its own result
+            let want: Vec<i64> = codes.iter().enumerate().map(|(i, &c)| if c == 0 { 100 + i as i64 } else { -1 }).collect();
+            if let Some(p) = visit_problem(&order, n) { cx.sum.fail(cell, None, case, &format!("all gates open, but {}", p)); }
+            else if results != want { cx.sum.fail(cell, None, case, &format!("the handles yield {:?} (-1 = error, -9 = never finished), want {:?}", results, want)); }
+            else if st[0] != n as i64 || st[4] < 0 { cx.sum.fail(cell, None, case, &format!("{} fibers: total_spawned = {}, shutdown() returned: {}", n, st[0], st[4] >= 0)); }
         }
     }
 }
@@ -693,17 +835,31 @@ fn reduce_case(cx: &mut Ctx, which: u64, rt: usize, mw: usize, xs: &[i64], force
     let case = json!({"cell": "reduce", "kind": 3, "which": which, "rt": rt, "mw": mw, "ops": xs});
     cx.sum.eval(cell, &format!("rd {} {} {} {:?}", which, rt, mw, xs), xs.len() >= 2);
     let items: Vec<Vec<i64>> = xs.iter().map(|&x| vec![x]).collect();
+    let max_fibers = [4usize, 1, 2][mw % 3];
+    // the accumulator length at every call of the function: shows how the input was cut into chunks
+    let trace = new_log();
+    let stats: Arc<std::sync::Mutex<Vec<i64>>> = Arc::new(std::sync::Mutex::new(vec![]));
+    let (tr, stc) = (trace.clone(), stats.clone());
     let r = guarded(|| with_rt(rt, async move {
         tokio::time::timeout(hang_for(mw), async move {
             // concatenation: associative with identity [], not commutative - any reordering or loss shows
-            let f = |mut a: Vec<i64>, b: Vec<i64>| -> ZResult<Vec<i64>> {
+            let f = move |mut a: Vec<i64>, b: Vec<i64>| -> ZResult<Vec<i64>> {
+                tr.lock().unwrap().push(a.len());
                 if b.iter().any(|x| x.rem_euclid(16) == 13) { return Err(ZiporaError::invalid_data("reduce failed")); }
                 a.extend(b);
                 Ok(a)
             };
             if which == 0 {
-                let pool = FiberPool::new(FiberPoolConfig { max_fibers: 4, initial_workers: 1, max_workers: mw, queue_capacity: 16, idle_timeout: Duration::from_secs(1) })?;
-                pool.parallel_reduce(items, vec![], f).await
+                let pool = FiberPool::new(pool_cfg(max_fibers, mw))?;
+                let res = pool.parallel_reduce(items, vec![], f).await;
+                let t0 = Instant::now();
+                loop {
+                    let st = pool.stats();
+                    if st.completed + st.failed >= st.total_spawned || t0.elapsed() > Duration::from_secs(3) { break; }
+                    tokio::time::sleep(Duration::from_micros(300)).await;
+                }
+                *stc.lock().unwrap() = pool_stats(&pool, max_fibers).await;
+                res
             } else {
                 zipora::concurrency::parallel_reduce(items, vec![], f).await
             }
@@ -715,9 +871,25 @@ fn reduce_case(cx: &mut Ctx, which: u64, rt: usize, mw: usize, xs: &[i64], force
         Ok(Err(_)) => cx.sum.fail(cell, None, case, "did not return (8 s; 0.7 s when the limit is 0)"),
         Ok(Ok(res)) => {
             let got = res.ok();
+            let st: Vec<i64> = stats.lock().unwrap().clone();
             if which == 0 {
                 let k = std::cmp::max(1, xs.len() / mw.max(1));
-                cx.coq(3, k as u64, 0, xs, &obs_opt(&got), &case, force);
+                if rt == 0 && st.len() == 5 {
+                    // the result-collection model with the chunk size computed here, as before, then the FiberPool model,
+                    // which derives the chunking from (len, max_workers) itself: result, call trace, statistics
+                    let mut obs: Vec<i64> = obs_opt(&got);
+                    obs.push(-8);
+                    obs.extend(obs_opt(&got));
+                    obs.push(-7);
+                    obs.extend(trace.lock().unwrap().iter().map(|&l| l as i64));
+                    obs.push(-7);
+                    obs.extend_from_slice(&st);
+                    let mut cj = case.clone();
+                    cj["kind"] = json!(11);
+                    cx.coq(11, mw as u64, (k * 1000 + max_fibers) as u64, xs, &obs, &cj, force);
+                } else {
+                    cx.coq(3, k as u64, 0, xs, &obs_opt(&got), &case, force);
+                }
             }
             if got != want { cx.sum.fail(cell, None, case, &format!("returned {:?}, the sequential fold gives {:?}", got, want)); }
         }
@@ -1014,7 +1186,11 @@ fn run_one(cx: &mut Ctx, c: &Value) {
             order_case(cx, u(&c["cap"], 8) as usize, &ops, true)
         }
         "pmap" => pmap_case(cx, u(&c["which"], 0).min(3), u(&c["rt"], 0) as usize, u(&c["max_fibers"], 4) as usize, &ops, c["panics"].as_bool().unwrap_or(false), true),
-        "foreach" => foreach_case(cx, u(&c["rt"], 0) as usize, u(&c["max_fibers"], 4).max(1) as usize, &ops),
+        "foreach" => foreach_case(cx, u(&c["rt"], 0) as usize, u(&c["max_fibers"], 4).max(1) as usize, &ops, true),
+        "poolhist" => {
+            let ops: Vec<i64> = ops.into_iter().filter(|&o| (0..=2).contains(&o)).take(14).collect();
+            pool_hist_case(cx, u(&c["max_fibers"], 2).max(1) as usize, &ops, &ints(&c["gates"]), true)
+        }
         "reduce" => reduce_case(cx, u(&c["which"], 0).min(1), u(&c["rt"], 0) as usize, u(&c["mw"], 2) as usize, &ops, true),
         "process_batch" => batch_case(cx, u(&c["which"], 0).min(4), c["batching"].as_bool().unwrap_or(false), &ops, true),
         "single" => single_case(cx, &ops),
@@ -1051,14 +1227,24 @@ pub fn run(args: &Args) {
     let mut cx = Ctx {
         sum: Summary::new("C18", "corpus; all WorkStealingQueue histories of <= 6 operations over push(prio 0/1, stealable or not)/pop_local/steal/balance + random histories around the capacity; the running executor with 1, 2, 3, 4 workers on current-thread and multi-thread runtimes, task counts around workers*capacity, around the global overflow and around the balance trigger (100 executed), mixed priorities/stealability/task behaviour (incl. tasks that fail, that panic, and that submit children from inside a worker), workers busy / idle / idle for 120 ms when the tasks arrive, a second wave after a complete drain; executor histories through the paused-executor hook (all interleavings of submit/find_task/balance of small shape for 1 and 2 workers + random ones for 1..4 workers); parallel_map/for_each/reduce, process_batch, execute_stream, BatchCollector and the yield/aio helpers on vectors of length 0..40 with and without failing, panicking and timed-out items, concurrency limits, batch sizes and yield intervals 0, 1, 2, around the input length and beyond. A case is non-trivial when it has >= 2 tasks/items (queue histories: >= 2 pushes and a steal or balance); distinct = distinct canonical case text"),
         shards: CoqShards::new(&header(), 300),
-        budget: if args.thorough { [5000, 600, 1200, 1200, 1200, 600, 4000, 1200] } else { [400, 60, 150, 120, 120, 60, 400, 120] },
-        used: [0; 8],
+        budget: {
+            let mut b = [0usize; NK];
+            let base: [usize; 8] = if args.thorough { [5000, 600, 1200, 1200, 1200, 600, 4000, 1200] } else { [400, 60, 150, 120, 120, 60, 400, 120] };
+            b[..8].copy_from_slice(&base);
+            // 8 pool history, 9 FiberPool::parallel_map, 10 parallel_for_each, 11 FiberPool::parallel_reduce
+            // (9 and 11 count against the budgets of kinds 2 and 3: the same runs, compared with both models)
+            let more: [usize; 4] = if args.thorough { [1500, 0, 400, 0] } else { [60, 0, 40, 0] };
+            b[8..12].copy_from_slice(&more);
+            b
+        },
+        used: [0; NK],
         rng: Rng::new(args.seed),
         thorough: args.thorough,
     };
     for c in ["WorkStealingQueue", "WorkStealingExecutor::submit", "FiberPool::parallel_map", "concurrency::parallel_map", "concurrency::join_all",
-              "FiberPool::spawn_batch", "FiberPool::parallel_reduce", "Pipeline::process_batch", "BatchCollector",
-              "WorkStealingExecutor/worker_loop order (1 worker)", "WorkStealingExecutor/history (hook)", "Pipeline::execute_stream"] {
+              "FiberPool::spawn_batch", "FiberPool::parallel_reduce", "FiberPool::parallel_for_each", "Pipeline::process_batch", "BatchCollector",
+              "WorkStealingExecutor/worker_loop order (1 worker)", "WorkStealingExecutor/history (hook)", "Pipeline::execute_stream",
+              "FiberPool::spawn (semaphore history)"] {
         cx.sum.cell_status(c, "M+S");
     }
     cx.sum.cell_status("concurrency::parallel_reduce", "S-only");
@@ -1252,7 +1438,8 @@ pub fn run(args: &Args) {
                 cx.rng = r;
                 for which in 0..4u64 { pmap_case(&mut cx, which, rt, mf.max(1), &xs, false, false); }
                 if n == 3 { pmap_case(&mut cx, 0, rt, 0, &xs, false, false); pmap_case(&mut cx, 3, rt, 0, &xs, false, false); }
-                foreach_case(&mut cx, rt, mf.max(1), &xs);
+                foreach_case(&mut cx, rt, mf.max(1), &xs, false);
+                if rt != 0 { foreach_case(&mut cx, 0, mf.max(1), &xs, false); }
                 for &mw in &[0usize, 1, 2, 3, n.max(2) - 1, n.max(1), n + 1, 100] { reduce_case(&mut cx, 0, rt, mw, &xs, false); }
                 reduce_case(&mut cx, 1, rt, 1, &xs, false);
                 if fail == 0 && n > 0 {
@@ -1263,6 +1450,24 @@ pub fn run(args: &Args) {
                     for which in 0..4u64 { pmap_case(&mut cx, which, rt, mf.max(1), &ys, true, false); }
                 }
             }
+        }
+    }
+
+    // 4b. FiberPool histories: the semaphore under a schedule chosen by the harness
+    {
+        let nph = if thorough { 1500 } else { 60 };
+        for k in 0..nph {
+            let mut r = cx.rng.clone();
+            let n = if k < 4 { k + 1 } else { r.range(2, 9) as usize };
+            let mf = *r.pick(&[1usize, 1, 2, 2, 3, n.max(2) - 1, n, n + 1]);
+            let bad = r.below(3); // 0: no failing body, 1: some fail, 2: fail and panic
+            let codes: Vec<i64> = (0..n).map(|_| if bad >= 1 && r.chance(1, 3) { if bad == 2 && r.chance(1, 2) { 2 } else { 1 } } else { 0 }).collect();
+            // a random order of the gates (Fisher-Yates), sometimes opening a gate of a fiber that is still waiting first
+            let mut gates: Vec<i64> = (0..n as i64).collect();
+            for i in (1..n).rev() { let j = r.below(i as u64 + 1) as usize; gates.swap(i, j); }
+            cx.rng = r;
+            if k < 2 { cx.sum.sample(json!({"cell": "poolhist", "max_fibers": mf, "ops": codes, "gates": gates})); }
+            pool_hist_case(&mut cx, mf.max(1), &codes, &gates, false);
         }
     }
 
